@@ -9,546 +9,7 @@ broadcast use vp_std::group_std_gaps;
 //@include shim/either.rs
 //@include shim/common_types.rs
 
-/*@ item src/bitfield/fixed.rs const FIXED_BITFIELD_LENGTH @*/
-/*@ item src/bitfield/fixed.rs const FIXED_BITFIELD_BYTES_LENGTH @*/
-/*@ item src/bitfield/fixed.rs const FIXED_BITFIELD_BITS_LENGTH @*/
-/*@ item src/bitfield/fixed.rs const FIXED_BITFIELD_BITS_PER_ELEM @*/
-
-/*@ item src/bitfield/fixed.rs struct FixedBitfield @*/
-
-pub open spec fn bit_of(w: u32, o: u32) -> bool { (w >> o) & 1 == 1 }
-// JS layout of a page: bit k of the page is bit (k % 8) of byte k / 8 (little-endian words)
-pub open spec fn bytes_bit(s: Seq<u8>, k: int) -> bool { (s[k / 8] >> ((k % 8) as u8)) & 1 == 1 }
-
-pub proof fn lemma_word_bytes(w: u32, b0: u8, b1: u8, b2: u8, b3: u8)
-    requires w == (b0 as u32) | ((b1 as u32) << 8) | ((b2 as u32) << 16) | ((b3 as u32) << 24)
-    ensures
-        forall|o: u32| o < 8 ==> #[trigger] bit_of(w, o) == ((b0 >> (o as u8)) & 1 == 1),
-        forall|o: u32| 8 <= o < 16 ==> #[trigger] bit_of(w, o) == ((b1 >> ((o - 8) as u8)) & 1 == 1),
-        forall|o: u32| 16 <= o < 24 ==> #[trigger] bit_of(w, o) == ((b2 >> ((o - 16) as u8)) & 1 == 1),
-        forall|o: u32| 24 <= o < 32 ==> #[trigger] bit_of(w, o) == ((b3 >> ((o - 24) as u8)) & 1 == 1),
-{
-    assert(forall|o: u32| o < 8 ==> #[trigger] bit_of(w, o) == ((b0 >> (o as u8)) & 1 == 1)) by (bit_vector)
-        requires w == (b0 as u32) | ((b1 as u32) << 8) | ((b2 as u32) << 16) | ((b3 as u32) << 24);
-    assert(forall|o: u32| 8 <= o < 16 ==> #[trigger] bit_of(w, o) == ((b1 >> ((o - 8) as u8)) & 1 == 1)) by (bit_vector)
-        requires w == (b0 as u32) | ((b1 as u32) << 8) | ((b2 as u32) << 16) | ((b3 as u32) << 24);
-    assert(forall|o: u32| 16 <= o < 24 ==> #[trigger] bit_of(w, o) == ((b2 >> ((o - 16) as u8)) & 1 == 1)) by (bit_vector)
-        requires w == (b0 as u32) | ((b1 as u32) << 8) | ((b2 as u32) << 16) | ((b3 as u32) << 24);
-    assert(forall|o: u32| 24 <= o < 32 ==> #[trigger] bit_of(w, o) == ((b3 >> ((o - 24) as u8)) & 1 == 1)) by (bit_vector)
-        requires w == (b0 as u32) | ((b1 as u32) << 8) | ((b2 as u32) << 16) | ((b3 as u32) << 24);
-}
-
-pub proof fn lemma_byte_of(w: u32)
-    ensures w == (byte_of(w, 0) as u32) | ((byte_of(w, 1) as u32) << 8) | ((byte_of(w, 2) as u32) << 16) | ((byte_of(w, 3) as u32) << 24)
-{
-    assert(w == ((((w >> 0u32) & 0xff) as u8) as u32) | (((((w >> 8u32) & 0xff) as u8) as u32) << 8)
-        | (((((w >> 16u32) & 0xff) as u8) as u32) << 16) | (((((w >> 24u32) & 0xff) as u8) as u32) << 24)) by (bit_vector);
-}
-
-impl FixedBitfield {
-    pub open spec fn bit(&self, i: int) -> bool
-        recommends 0 <= i < 32768
-    {
-        bit_of(self.bitfield@[i / 32], (i % 32) as u32)
-    }
-
-    /*@ fn src/bitfield/fixed.rs FixedBitfield::new
-    tags: C08 C01
-    result: r
-    ensures:
-        !r.dirty,
-        forall|k: int| 0 <= k < 32768 ==> !r.bit(k)
-    first:
-        assert(forall|o: u32| o < 32 ==> !bit_of(0u32, o)) by (bit_vector);
-    @*/
-
-    /*@ fn src/bitfield/fixed.rs FixedBitfield::get
-    tags: C08 C01
-    result: r
-    requires:
-        index < 32768
-    ensures:
-        r == self.bit(index as int)
-    after `let offset = index &`:
-        assert(index & 31 == index % 32) by (bit_vector);
-        assert(index & 31 <= index) by (bit_vector);
-    after `.expect("Could not fit 64 bit integer to usize on this architecture");`:
-        let ghost w = self.bitfield@[i as int];
-        assert((w & (1u32 << offset) != 0) == ((w >> offset) & 1 == 1)) by (bit_vector)
-            requires offset < 32;
-    @*/
-
-    /*@ fn src/bitfield/fixed.rs FixedBitfield::set
-    tags: C08 C01
-    result: r
-    requires:
-        index < 32768
-    ensures:
-        forall|k: int| 0 <= k < 32768 ==> final(self).bit(k) == (if k == index { value } else { old(self).bit(k) }),
-        r == (old(self).bit(index as int) != value),
-        final(self).dirty == old(self).dirty
-    after `let offset = index &`:
-        assert(index & 31 == index % 32) by (bit_vector);
-        assert(index & 31 <= index) by (bit_vector);
-    after `let mask =`:
-        let ghost w0 = self.bitfield@[i as int];
-        assert((w0 & (1u32 << offset) != 0) == bit_of(w0, offset)) by (bit_vector)
-            requires offset < 32;
-        assert((w0 & (1u32 << offset) == 0) == !bit_of(w0, offset)) by (bit_vector)
-            requires offset < 32;
-        assert(forall|o: u32| o < 32 ==> bit_of(w0 ^ (1u32 << offset), o)
-            == (if o == offset { !bit_of(w0, o) } else { bit_of(w0, o) })) by (bit_vector)
-            requires offset < 32;
-    @*/
-
-    /*@ fn src/bitfield/fixed.rs FixedBitfield::set_range
-    tags: C08 C01
-    result: r
-    requires:
-        start as int + length as int <= 32768
-    ensures:
-        forall|k: int| 0 <= k < 32768 ==> final(self).bit(k)
-            == (if start <= k < start + length { value } else { old(self).bit(k) }),
-        r == (final(self).bitfield@ != old(self).bitfield@),
-        final(self).dirty == old(self).dirty
-    after `let mut offset = start`:
-        assert(start & 31 == start % 32) by (bit_vector);
-        assert(start & 31 <= start) by (bit_vector);
-    loop 1:
-        invariant
-            n == 32, end == start + length, end <= 32768,
-            offset < 32, i <= 1024,
-            remaining == end as int - (32 * i as int + offset as int),
-            start as int <= 32 * i as int + offset as int,
-            offset == 0 || 32 * i as int + offset as int == start as int,
-            self.dirty == old(self).dirty,
-            forall|j: int| i as int <= j < 1024 ==> self.bitfield@[j] == old(self).bitfield@[j],
-            forall|k: int| 0 <= k < 32 * i as int ==> self.bit(k)
-                == (if start <= k < end { value } else { old(self).bit(k) }),
-            changed ==> (exists|j: int| 0 <= j < i as int && self.bitfield@[j] != old(self).bitfield@[j]),
-            !changed ==> self.bitfield@ == old(self).bitfield@
-        decreases 1024 - i
-    before `let mask_seed =`:
-        assert(power as int == (if remaining <= 32 - offset { remaining as int } else { 32 - offset as int }));
-        proof {
-            if power < 32 {
-                vstd::arithmetic::power2::lemma_pow2(power as nat);
-                vstd::bits::lemma_u32_pow2_no_overflow(power as nat);
-                vstd::arithmetic::power2::lemma_pow2_pos(power as nat);
-            }
-        }
-    after `let mask: u32 =`:
-        let ghost w = self.bitfield@[i as int];
-        let ghost iw = i as int;
-        let ghost snap = self.bitfield@;
-        let ghost self0 = *self;
-        assert(i < 1024);
-        assert(forall|o: u32| o < 32 ==> bit_of(mask, o) == (offset <= o && (o as int) < offset as int + power as int)) by {
-            if power == 32 {
-                assert(offset == 0);
-                assert(forall|o: u32| o < 32 ==> bit_of(0xffff_ffffu32 << 0u32, o)) by (bit_vector);
-            } else {
-                vstd::arithmetic::power2::lemma_pow2(power as nat);
-                vstd::bits::lemma_u32_shl_is_mul(1u32, power);
-                vstd::bits::lemma_u32_pow2_no_overflow(power as nat);
-                assert(mask_seed == ((1u32 << power) - 1) as u32);
-                assert(forall|o: u32| o < 32 ==> #[trigger] bit_of(mask, o)
-                    == (offset <= o && o < offset + power)) by (bit_vector)
-                    requires offset < 32, power < 32, offset + power <= 32,
-                        mask == ((((1u32 << power) - 1) as u32) << offset);
-            }
-        }
-        assert(forall|o: u32| o < 32 ==> bit_of(w | mask, o) == (bit_of(w, o) || bit_of(mask, o))) by (bit_vector);
-        assert(forall|o: u32| o < 32 ==> bit_of(w & !mask, o) == (bit_of(w, o) && !bit_of(mask, o))) by (bit_vector);
-        assert(((w & mask) != mask) ==> ((w | mask) != w)) by (bit_vector);
-        assert(((w & mask) != 0) ==> ((w & !mask) != w)) by (bit_vector);
-        assert(((w & mask) == mask) ==> (forall|o: u32| o < 32 && bit_of(mask, o) ==> bit_of(w, o))) by (bit_vector);
-        assert(((w & mask) == 0) ==> (forall|o: u32| o < 32 && bit_of(mask, o) ==> !bit_of(w, o))) by (bit_vector);
-    before `remaining -=`:
-        assert forall|k: int| 0 <= k < 32 * iw + 32 implies #[trigger] self.bit(k)
-                == (if start <= k < end { value } else { old(self).bit(k) }) by {
-            if k < 32 * iw {
-                assert(k / 32 < iw);
-                assert(self.bitfield@[k / 32] == snap[k / 32]);
-                assert(self.bit(k) == self0.bit(k));
-            } else {
-                assert(k / 32 == iw);
-                let o = (k % 32) as u32;
-                assert(o < 32);
-                assert(old(self).bitfield@[iw] == w);
-                assert(k == 32 * iw + o);
-                assert(old(self).bit(k) == bit_of(w, o));
-                assert(self.bit(k) == bit_of(self.bitfield@[iw], o));
-                assert(bit_of(mask, o) == (offset <= o && (o as int) < offset as int + power as int));
-                assert(bit_of(mask, o) == (start <= k < end));
-            }
-        }
-    @*/
-
-    /*@ fn src/bitfield/fixed.rs FixedBitfield::from_data
-    tags: C08 C01 C06
-    result: r
-    requires:
-        data_index + 4096 <= usize::MAX
-    ensures:
-        !r.dirty,
-        forall|k: int| 0 <= k < 32768 ==> #[trigger] r.bit(k)
-            == (data_index + 4 * (k / 32) + 4 <= data@.len() && bytes_bit(data@, 8 * data_index + k))
-    first:
-        assert(forall|o: u32| o < 32 ==> !bit_of(0u32, o)) by (bit_vector);
-    loop 1:
-        invariant
-            data_index <= i <= limit + 4,
-            (i - data_index) % 4 == 0,
-            limit == (if data_index + 4096 <= data@.len() { data_index + 4096 } else { data@.len() as int }) - 4,
-            data@.len() >= data_index + 4,
-            forall|j: int| (i - data_index) / 4 <= j < 1024 ==> bitfield@[j] == 0u32,
-            forall|k: int| 0 <= k < 8 * (i - data_index) ==> #[trigger] bit_of(bitfield@[k / 32], (k % 32) as u32)
-                == bytes_bit(data@, 8 * data_index + k)
-        decreases limit + 4 - i
-    before `] = value;`:
-        let ghost bf0 = bitfield@;
-        let ghost wi = (i - data_index) / 4;
-    before `i += `:
-        proof {
-            lemma_word_bytes(value, data@[i as int], data@[i + 1], data@[i + 2], data@[i + 3]);
-            assert forall|k: int| 0 <= k < 8 * (i + 4 - data_index) implies
-                #[trigger] bit_of(bitfield@[k / 32], (k % 32) as u32) == bytes_bit(data@, 8 * data_index + k) by {
-                if k < 8 * (i - data_index) {
-                    assert(k / 32 < wi);
-                    assert(bitfield@[k / 32] == bf0[k / 32]);
-                } else {
-                    assert(k / 32 == wi);
-                    let o = (k % 32) as u32;
-                    assert(k == 32 * wi + o);
-                    assert((8 * data_index + k) / 8 == i + o / 8);
-                    assert((8 * data_index + k) % 8 == o % 8);
-                    assert(bitfield@[wi] == value);
-                }
-            }
-        }
-    @*/
-
-    /*@ fn src/bitfield/fixed.rs FixedBitfield::to_bytes
-    tags: C08 C01 C06
-    result: r
-    ensures:
-        r@.len() == 4096,
-        forall|k: int| 0 <= k < 32768 ==> #[trigger] bytes_bit(r@, k) == self.bit(k)
-    sub `for elem in self\.bitfield \{` => `for elem in it: self.bitfield.iter() {`
-    sub `&elem\.to_le_bytes\(\)` => `&vp_u32_to_le_bytes(*elem)`
-    loop 1:
-        invariant
-            i == 4 * it.index@,
-            forall|k: int| 0 <= k < 8 * i ==> #[trigger] bytes_bit(data@, k) == self.bit(k)
-    before `i += `:
-        proof {
-            let ghost w = *elem;
-            let ghost wi = it.index@ as int;
-            assert(w == self.bitfield@[wi]);
-            lemma_byte_of(w);
-            lemma_word_bytes(w, byte_of(w, 0), byte_of(w, 1), byte_of(w, 2), byte_of(w, 3));
-            assert forall|k: int| 0 <= k < 8 * (i + 4) implies #[trigger] bytes_bit(data@, k) == self.bit(k) by {
-                if k < 8 * i {
-                    assert(data@[k / 8] == data0[k / 8]);
-                    assert(bytes_bit(data0, k) == self.bit(k));
-                } else {
-                    let o = (k % 32) as u32;
-                    assert(k / 32 == wi);
-                    assert(k / 8 == i + o / 8);
-                    assert(k % 8 == o % 8);
-                }
-            }
-        }
-    before `data[i] =`:
-        let ghost data0 = data@;
-    @*/
-}
-
-// ======================= src/bitfield/dynamic.rs (R5: RefCell erased) =======================
-/*@ item src/bitfield/dynamic.rs const DYNAMIC_BITFIELD_PAGE_SIZE @*/
-/*@ item src/bitfield/dynamic.rs struct DynamicBitfield ; refcell @*/
-
-impl DynamicBitfield {
-    pub open spec fn bit(&self, i: int) -> bool {
-        let p = (i / 32768) as u64;
-        0 <= i <= u64::MAX && self.pages@.contains_key(p) && self.pages@[p].bit(i % 32768)
-    }
-    pub open spec fn wf(&self) -> bool {
-        &&& forall|p: u64| self.pages@.contains_key(p) ==> p <= self.biggest_page_index && p <= 0x1_ffff_ffff_ffff
-        &&& forall|p: u64| #![trigger self.pages@[p]] self.pages@.contains_key(p) && self.pages@[p].dirty ==> self.unflushed@.contains(p)
-        &&& forall|j: int| 0 <= j < self.unflushed@.len() ==> self.pages@.contains_key(#[trigger] self.unflushed@[j])
-    }
-
-    /*@ fn src/bitfield/dynamic.rs DynamicBitfield::get ; refcell
-    tags: C08 C01
-    result: r
-    ensures:
-        r == self.bit(index as int)
-    after `let j = index &`:
-        assert(index & 32767 == index % 32768) by (bit_vector);
-    @*/
-
-    /*@ fn src/bitfield/dynamic.rs DynamicBitfield::update ; refcell
-    tags: C08 C01 C02
-    requires:
-        old(self).wf(),
-        bitfield_update.start + bitfield_update.length <= u64::MAX
-    ensures:
-        final(self).wf(),
-        forall|k: int| #![trigger final(self).bit(k)] final(self).bit(k) == (if bitfield_update.start <= k < bitfield_update.start + bitfield_update.length { !bitfield_update.drop } else { old(self).bit(k) }),
-        forall|k: int| 0 <= k && #[trigger] final(self).bit(k) != old(self).bit(k) ==> final(self).unflushed@.contains((k / 32768) as u64),
-        forall|x: u64| old(self).unflushed@.contains(x) ==> final(self).unflushed@.contains(x)
-    @*/
-
-    /*@ fn src/bitfield/dynamic.rs DynamicBitfield::set_range ; refcell
-    tags: C08 C01 C02
-    requires:
-        old(self).wf(),
-        start + length <= u64::MAX
-    ensures:
-        final(self).wf(),
-        forall|k: int| #![trigger final(self).bit(k)] final(self).bit(k) == (if start <= k < start + length { value } else { old(self).bit(k) }),
-        forall|k: int| 0 <= k && #[trigger] final(self).bit(k) != old(self).bit(k) ==> final(self).unflushed@.contains((k / 32768) as u64),
-        forall|x: u64| old(self).unflushed@.contains(x) ==> final(self).unflushed@.contains(x)
-    after `let mut j = start &`:
-        assert(start & 32767 == start % 32768) by (bit_vector);
-        let ghost len0 = length;
-    loop 1:
-        invariant
-            self.wf(),
-            j < 32768,
-            length > 0 ==> i as int * 32768 + j + length == start + len0,
-            length == 0 ==> i as int * 32768 + j >= start + len0,
-            start + len0 <= u64::MAX,
-            j == 0 || i as int * 32768 + j == start,
-            start <= i as int * 32768 + j,
-            forall|p: u64| p >= i ==> #[trigger] self.pages@.contains_key(p) == old(self).pages@.contains_key(p),
-            forall|p: u64| p >= i && self.pages@.contains_key(p) ==> #[trigger] self.pages@[p] == old(self).pages@[p],
-            forall|k: int| 0 <= k < i as int * 32768 ==> #[trigger] self.bit(k) == (if start <= k < start + len0 { value } else { old(self).bit(k) }),
-            forall|k: int| 0 <= k < i as int * 32768 && #[trigger] self.bit(k) != old(self).bit(k) ==> self.unflushed@.contains((k / 32768) as u64),
-            forall|x: u64| old(self).unflushed@.contains(x) ==> self.unflushed@.contains(x)
-        decreases length
-    last:
-        proof {
-            assert forall|k: int| #![trigger self.bit(k)] self.bit(k) == (if start <= k < start + len0 { value } else { old(self).bit(k) })
-                && (0 <= k && self.bit(k) != old(self).bit(k) ==> self.unflushed@.contains((k / 32768) as u64)) by {
-                if 0 <= k <= u64::MAX && k >= i as int * 32768 {
-                    let p = (k / 32768) as u64;
-                    assert(p >= i);
-                    assert(self.pages@.contains_key(p) == old(self).pages@.contains_key(p));
-                }
-            }
-        }
-    before `if !self.pages.contains_key(i)`:
-        let ghost s0 = *self;
-        let ghost ii = i;
-        let ghost jj = j;
-    before `let mut p = self.pages.get_mut(i)`:
-        let ghost s1 = *self;
-        assert(s1.pages@.contains_key(ii));
-        assert(forall|k: int| 0 <= k < 32768 ==> !s0.pages@.contains_key(ii) ==> !s1.pages@[ii].bit(k));
-        assert(s0.pages@.contains_key(ii) ==> s1.pages@[ii] == s0.pages@[ii]);
-        assert(!s0.pages@.contains_key(ii) ==> !s1.pages@[ii].dirty);
-    after `let changed = p.set_range`:
-        let ghost pmid = *p;
-    before `j = 0;`:
-        proof {
-            lemma_push_contains(s1.unflushed@, ii);
-            assert(s1.unflushed@ == s0.unflushed@);
-            assert(self.unflushed@ == s1.unflushed@ || self.unflushed@ == s1.unflushed@.push(ii));
-            let pg = self.pages@[ii];
-            let pg1 = s1.pages@[ii];
-            assert(self.pages@ == s1.pages@.insert(ii, pg));
-            assert(forall|q: u64| q != ii ==> self.pages@.contains_key(q) == s0.pages@.contains_key(q));
-            assert(forall|q: u64| q != ii && self.pages@.contains_key(q) ==> #[trigger] self.pages@[q] == s0.pages@[q]);
-            assert forall|k: int| 0 <= k < (ii as int + 1) * 32768 implies
-                #[trigger] self.bit(k) == (if start <= k < start + len0 { value } else { old(self).bit(k) })
-                && (self.bit(k) != old(self).bit(k) ==> self.unflushed@.contains((k / 32768) as u64)) by {
-                if k < ii as int * 32768 {
-                    assert((k / 32768) as u64 != ii);
-                    assert(self.bit(k) == s0.bit(k));
-                    assert(s0.unflushed@.contains((k / 32768) as u64) ==> self.unflushed@.contains((k / 32768) as u64));
-                } else {
-                    assert(k / 32768 == ii as int);
-                    let kk = k % 32768;
-                    assert(k == ii as int * 32768 + kk);
-                    assert(self.bit(k) == pg.bit(kk));
-                    assert(pg.bitfield@ == pmid.bitfield@);
-                    assert(pmid.bit(kk) == (if range_start <= kk < range_start + range_end { value } else { pg1.bit(kk) }));
-                    assert(pg.bit(kk) == pmid.bit(kk));
-                    assert(old(self).bit(k) == pg1.bit(kk));
-                    assert((range_start <= kk < range_start + range_end) == (start <= k < start + len0));
-                    if !changed {
-                        assert(pmid.bitfield@ == pg1.bitfield@);
-                        assert(pg.bit(kk) == pg1.bit(kk));
-                    }
-                }
-            }
-        }
-    @*/
-}
-
-impl DynamicBitfield {
-    /*@ fn src/bitfield/dynamic.rs DynamicBitfield::set ; refcell
-    tags: C08 C01
-    result: r
-    requires:
-        old(self).wf()
-    ensures:
-        final(self).wf(),
-        forall|k: int| #![trigger final(self).bit(k)] final(self).bit(k) == (if k == index { value } else { old(self).bit(k) }),
-        r == (old(self).bit(index as int) != value),
-        r ==> final(self).unflushed@.contains((index / 32768) as u64),
-        forall|x: u64| old(self).unflushed@.contains(x) ==> final(self).unflushed@.contains(x)
-    after `let j = index &`:
-        assert(index & 32767 == index % 32768) by (bit_vector);
-        let ghost s0 = *self;
-    before `let mut p = self.pages.get_mut(i)`:
-        let ghost s1 = *self;
-        assert(forall|k: int| 0 <= k < 32768 ==> !s0.pages@.contains_key(i) ==> !s1.pages@[i].bit(k));
-    last:
-        proof {
-            lemma_push_contains(s1.unflushed@, i);
-            assert(self.unflushed@ == s1.unflushed@ || self.unflushed@ == s1.unflushed@.push(i));
-            let pg = self.pages@[i];
-            assert(self.pages@ == s1.pages@.insert(i, pg));
-            assert forall|k: int| #![trigger self.bit(k)] self.bit(k) == (if k == index { value } else { old(self).bit(k) }) by {
-                if 0 <= k <= u64::MAX {
-                    if k / 32768 == i as int {
-                        let kk = k % 32768;
-                        assert(pg.bit(kk) == pmid.bit(kk));
-                    } else {
-                        assert((k / 32768) as u64 != i);
-                    }
-                }
-            }
-        }
-    after `let changed: bool = p.set(`:
-        let ghost pmid = *p;
-    @*/
-
-    /*@ fn src/bitfield/dynamic.rs DynamicBitfield::flush ; refcell
-    tags: C08 C01 C02 C06
-    result: r
-    requires:
-        old(self).wf()
-    ensures:
-        final(self).wf(),
-        final(self).unflushed@.len() == 0,
-        forall|k: int| #![trigger final(self).bit(k)] final(self).bit(k) == old(self).bit(k),
-        forall|p: u64| final(self).pages@.contains_key(p) ==> !(#[trigger] final(self).pages@[p]).dirty,
-        r@.len() == old(self).unflushed@.len(),
-        forall|n: int| 0 <= n < r@.len() ==> is_page_write(#[trigger] r@[n], old(self).unflushed@[n], old(self).pages@[old(self).unflushed@[n]])
-    sub `for unflushed_id in &self\.unflushed \{` => `for unflushed_id in it: self.unflushed.iter() {`
-    loop 1:
-        invariant
-            infos_to_flush@.len() == it.index@,
-            self.unflushed@ == old(self).unflushed@,
-            self.biggest_page_index == old(self).biggest_page_index,
-            old(self).wf(),
-            self.pages@.dom() == old(self).pages@.dom(),
-            forall|p: u64| self.pages@.contains_key(p) ==> (#[trigger] self.pages@[p]).bitfield@ == old(self).pages@[p].bitfield@,
-            forall|p: u64| self.pages@.contains_key(p) && (#[trigger] self.pages@[p]).dirty ==> old(self).pages@[p].dirty,
-            forall|m: int| 0 <= m < it.index@ ==> !(#[trigger] self.pages@[old(self).unflushed@[m]]).dirty,
-            forall|m: int| 0 <= m < it.index@ ==> is_page_write(#[trigger] infos_to_flush@[m], old(self).unflushed@[m], old(self).pages@[old(self).unflushed@[m]])
-    before `let mut p = self.pages.get_mut(*unflushed_id)`:
-        let ghost s1 = *self;
-        let ghost id = *unflushed_id;
-        let ghost n = it.index@;
-        assert(id == old(self).unflushed@[n as int]);
-        assert(s1.pages@.contains_key(id));
-        let ghost infos0 = infos_to_flush@;
-    after `let data = p.to_bytes();`:
-        assert(id <= 0x1_ffff_ffff_ffff);
-        assert(data@.len() == 4096);
-        assert(id * 4096 <= 0x1_ffff_ffff_ffff * 4096) by (nonlinear_arith) requires id <= 0x1_ffff_ffff_ffff;
-    after `p.dirty = false;`:
-        proof {
-            let pg = self.pages@[id];
-            assert(self.pages@ == s1.pages@.insert(id, pg));
-            assert(pg.bitfield@ == s1.pages@[id].bitfield@);
-            assert(forall|k: int| 0 <= k < 32768 ==> pg.bit(k) == old(self).pages@[id].bit(k));
-            assert(infos_to_flush@ == infos0.push(infos_to_flush@[n as int]));
-            assert(forall|m: int| 0 <= m < n ==> infos_to_flush@[m] == infos0[m]);
-        }
-    last:
-        proof {
-            assert forall|p: u64| self.pages@.contains_key(p) implies !(#[trigger] self.pages@[p]).dirty by {
-                if self.pages@[p].dirty {
-                    assert(old(self).pages@[p].dirty);
-                    assert(old(self).unflushed@.contains(p));
-                    let m = choose|m: int| 0 <= m < old(self).unflushed@.len() && old(self).unflushed@[m] == p;
-                    assert(!self.pages@[old(self).unflushed@[m]].dirty);
-                }
-            }
-        }
-    @*/
-}
-
-// one flushed page: Write(Bitfield, 4096 * page_id, 4096 bytes in the JS layout)
-pub open spec fn is_page_write(info: StoreInfo, id: u64, page: FixedBitfield) -> bool {
-    &&& info.store == Store::Bitfield
-    &&& info.info_type == StoreInfoType::Content
-    &&& !info.miss
-    &&& info.index == id * 4096
-    &&& info.data is Some
-    &&& info.data->Some_0@.len() == 4096
-    &&& forall|k: int| 0 <= k < 32768 ==> #[trigger] bytes_bit(info.data->Some_0@, k) == page.bit(k)
-}
-
-// bit i of the bitfield *file*: pages of 4096 bytes, whole little-endian 32-bit words only
-pub open spec fn file_bit(data: Seq<u8>, i: int) -> bool {
-    0 <= i && 4 * (i / 32) + 4 <= data.len() && bytes_bit(data, i)
-}
-
-impl DynamicBitfield {
-    /*@ fn src/bitfield/dynamic.rs DynamicBitfield::open ; refcell
-    tags: C08 C01 C06
-    result: r
-    requires:
-        info is Some ==> (info->Some_0.info_type == StoreInfoType::Size ==> info->Some_0.length is Some),
-        info is Some ==> (info->Some_0.info_type == StoreInfoType::Content ==> info->Some_0.data is Some && info->Some_0.data->Some_0@.len() <= 0x1_0000_0000_0000)
-    ensures:
-        info is None ==> r is Left && r->Left_0.store == Store::Bitfield && r->Left_0.info_type == StoreInfoType::Size && r->Left_0.index == 0,
-        info is Some && info->Some_0.info_type == StoreInfoType::Size ==> r is Left && r->Left_0.store == Store::Bitfield
-            && r->Left_0.info_type == StoreInfoType::Content && r->Left_0.index == 0
-            && r->Left_0.length == Some((info->Some_0.length->Some_0 - info->Some_0.length->Some_0 % 4) as u64),
-        info is Some && info->Some_0.info_type == StoreInfoType::Content ==> r is Right && r->Right_0.wf()
-            && r->Right_0.unflushed@.len() == 0
-            && forall|k: int| #![trigger r->Right_0.bit(k)] r->Right_0.bit(k) == file_bit(info->Some_0.data->Some_0@, k)
-    before `let length = bitfield_store_length -`:
-        assert(bitfield_store_length & 3 == bitfield_store_length % 4) by (bit_vector);
-        assert(bitfield_store_length & 3 <= bitfield_store_length) by (bit_vector);
-    loop 1:
-        invariant
-            data_index % 4096 == 0,
-            data@.len() <= 0x1_0000_0000_0000,
-            data_index <= data@.len() + 4096,
-            forall|q: u64| #[trigger] pages@.contains_key(q) <==> (q as int) * 4096 < data_index,
-            forall|q: u64| pages@.contains_key(q) ==> q <= biggest_page_index,
-            forall|q: u64| pages@.contains_key(q) ==> !(#[trigger] pages@[q]).dirty,
-            forall|q: u64, kk: int| pages@.contains_key(q) && 0 <= kk < 32768 ==> #[trigger] pages@[q].bit(kk)
-                == file_bit(data@, q as int * 32768 + kk)
-        decreases data@.len() + 4096 - data_index
-    @*/
-}
-
-pub proof fn lemma_push_contains<T>(s: Seq<T>, x: T)
-    ensures forall|y: T| #[trigger] s.push(x).contains(y) <==> (s.contains(y) || y == x)
-{
-    assert forall|y: T| #[trigger] s.push(x).contains(y) <==> (s.contains(y) || y == x) by {
-        if s.push(x).contains(y) {
-            let j = choose|j: int| 0 <= j < s.push(x).len() && s.push(x)[j] == y;
-            if j < s.len() { assert(s[j] == y); }
-        }
-        if s.contains(y) {
-            let j = choose|j: int| 0 <= j < s.len() && s[j] == y;
-            assert(s.push(x)[j] == y);
-        }
-        if y == x { assert(s.push(x)[s.len() as int] == y); }
-    }
-}
+//@include frag/bitfield.rs
 
 } // verus!
 fn main() {}
